@@ -143,12 +143,12 @@ def run(db, rep):
         bad = None
         n_cmp = 0
         for i, r in enumerate(rt):
-            if r[1] == "rest" or not r[3].is_const():
+            if r[1] == "rest" or has_atoms(r[3]):
                 break
-            if i < len(wt) and not wt[i][3].is_const():
+            if i < len(wt) and has_atoms(wt[i][3]):
                 break       # a variable-length item of the writer holds whatever follows (e.g. BootP::vend_ for DHCP)
             if i >= len(wt):
-                if i > 0 and not wt[-1][3].is_const():
+                if i > 0 and has_atoms(wt[-1][3]):
                     break
                 bad = "the constructor reads `%s` (%s bytes) but write_serialization writes nothing at that position" % (r[2], r[3])
                 break
@@ -161,11 +161,86 @@ def run(db, rep):
             if r[3].is_const() and wv[3].is_const() and r[3].k != wv[3].k:
                 bad = "position %d: %d byte(s) are read into `%s` but %d byte(s) are written for `%s`" % (i + 1, r[3].k, r[2], wv[3].k, wv[2])
                 break
+            gb = guard_gap(fxw, r, wv) if rn and wn else None
+            if gb:
+                bad = "`%s` is read when %s but written only when %s: %s" % (rn, gb[0], gb[1], gb[2])
+                break
+        # members that both sides handle after a variable-length part: compared by name
+        if not bad:
+            rnames = {}
+            for r in rt:
+                nmr = member_name(r[2]) if r[1] == "read" else None
+                if nmr and nmr not in rnames:
+                    rnames[nmr] = r
+            for wv in wt:
+                nmw = member_name(wv[2]) if wv[1] == "write" else None
+                if nmw and nmw in rnames:
+                    r = rnames.pop(nmw)
+                    if r[3].is_const() and wv[3].is_const() and r[3].k != wv[3].k:
+                        bad = "%d byte(s) are read into `%s` but %d byte(s) are written for it" % (r[3].k, nmw, wv[3].k)
+                        break
+                    gb = guard_gap(fxw, r, wv)
+                    if gb:
+                        bad = "`%s` is read when %s but written only when %s: %s" % (nmw, gb[0], gb[1], gb[2])
+                        break
         key = short
         if bad:
             rep.violation("R3-sequence", key, facts.loc(fs[0]), "%s: %s" % (short, bad))
         else:
             rep.ok("R3-sequence", key, facts.loc(fs[0]), "%d leading item(s) agree: %s" % (n_cmp, [member_name(r[2]) or "?" for r in rt[:n_cmp]]))
+
+
+def guard_form(guards):
+    f = sx.const(1)
+    for c, pol in reversed(guards):
+        if pol:
+            f = sx.when(c, f)
+        else:
+            f = f - sx.when(c, f)
+    return f
+
+
+def guard_gap(fx, r, w):
+    """the member is read under guards Gr and written under Gw: when the writer's condition tests the same terms as the
+    reader's (plus possibly more) there must be no situation in which it is read but not written"""
+    gr = r[8] if len(r) > 8 else []
+    gw = w[8] if len(w) > 8 else []
+    if not gr and not gw:
+        return None
+    cr, cw = sx.Cells(fx), sx.Cells(fx)
+    try:
+        for c, _ in gr:
+            cr.collect_cond(c)
+        for c, _ in gw:
+            cw.collect_cond(c)
+    except sx.Opaque:
+        return None
+    tr, tw = set(cr.terms), set(cw.terms)
+    if not tr or not tr <= tw:
+        return None         # different vocabularies (e.g. the reader tests raw bytes it has not stored yet): not comparable
+    fr, fw = guard_form(gr), guard_form(gw)
+    try:
+        for cell in cw.assignments(4096):
+            a = sx.flat_value(fx, fr, cell)
+            b = sx.flat_value(fx, fw, cell)
+            if a is None or b is None:
+                return None
+            if a and not b:
+                return (" && ".join(("" if p else "!") + c.key for c, p in gr) or "always",
+                        " && ".join(("" if p else "!") + c.key for c, p in gw) or "always",
+                        "e.g. when " + ", ".join("%s=%s" % kv for kv in sorted(cell.items())))
+    except (sx.Opaque, Exception) as e:
+        if isinstance(e, (KeyError, TypeError, AttributeError)):
+            raise
+        return None
+    return None
+
+
+def has_atoms(form):
+    """does the size depend on a run-time quantity (container length ...) rather than only on conditions?"""
+    if form.atoms or form.sums:
+        return True
+    return any(has_atoms(x) for c, x in form.whens)
 
 
 def member_name(t):
